@@ -672,6 +672,8 @@ class MindsDBParser(Parser):
             type = p[1].parts[-1]
         else:
             type = p[1]
+        if not isinstance(type, str):
+            raise ParsingException(f'Wrong object type: {p[1]}')
         type = type.replace(' ', '_')
         return Describe(value=p[2], type=type)
 
@@ -1476,6 +1478,8 @@ class MindsDBParser(Parser):
             if len(p.identifier.parts) > 1:
                 namespace = p.identifier.parts[0]
             name = p.identifier.parts[-1]
+            if not isinstance(name, str) or not isinstance(namespace or '', str):
+                raise ParsingException(f'Wrong function name: {p.identifier}')
         else:
             name = p.function_name
         return Function(op=name, args=args, namespace=namespace)
@@ -1683,6 +1687,8 @@ class MindsDBParser(Parser):
     def kw_parameter(self, p):
         key = getattr(p, 'identifier', None) or getattr(p, 'identifier0', None)
         assert key is not None
+        if not all(isinstance(part, str) for part in key.parts):
+            raise ParsingException(f'Wrong parameter name: {key}')
         key = '.'.join(key.parts)
         return {key:p[2]}
 
